@@ -339,7 +339,8 @@ def parseRules (d : Dec) (fuel : Nat) : Nat → List Token → List Rule → Lis
     | .ok (r, rest) => parseRules d fuel n rest (acc ++ [r])
     | .error e => (acc, some e)
 
-def fuelFor (ts : List Token) : Nat := 4 * ts.length + 16
+/-- recursion-depth budget: linear in the token count; `Proofs/ParseFuel.lean` shows it always suffices for a well-formed document -/
+def fuelFor (ts : List Token) : Nat := 16 * ts.length + 16
 
 def parseDoc (d : Dec) (ts : List Token) : List Rule × Option PErr :=
   parseRules d (fuelFor ts) (ts.length + 1) ts []
